@@ -3,7 +3,6 @@ package main
 import (
 	"fmt"
 	"go/ast"
-	"go/token"
 	"go/types"
 	"regexp"
 	"strings"
@@ -48,12 +47,8 @@ func ruleC07GuardedInsert(c *Ctx) {
 			// the edge: err == sql.ErrNoRows, err assigned from a `.One(` lookup whose Where arguments are row.Name and row.Linkname
 			var lookupOK bool
 			okk, _ := fl.guardedBy(cs.Call, func(ft Fact) bool {
-				be, ok := ast.Unparen(ft.E).(*ast.BinaryExpr)
-				if !ok || !(be.Op == token.EQL && ft.Pos || be.Op == token.NEQ && !ft.Pos) {
-					return false
-				}
-				sel, ok := ast.Unparen(be.Y).(*ast.SelectorExpr)
-				return ok && info.Uses[sel.Sel] == errNoRows
+				known, equal := sentinelFact(info, ft, errNoRows)
+				return known && equal
 			}, nil)
 			// find the lookup: a call chain models.Headers(qm.Where(..., row.Name), qm.Where(..., row.Linkname)).One(...)
 			walkOwn(f.Body(), func(nd ast.Node) {
